@@ -26,7 +26,8 @@ THEOREMS_3 = ["C02_adm_ctor", "C02_adm_accept_wf", "C02_adm_reject_unchanged", "
               "C02_bee_ctor", "C02_bee_accept_wf", "C02_bee_reject_unchanged", "C02_bee_history", "C02_bee_example",
               "C02_category_accept_wf", "C02_category_reject", "C02_category_text_refuted", "C02_category_text_partial",
               "C02_lss_ctor", "C02_lss_step", "C02_lss_history", "C02_lss_example"]
-THEOREMS_4 = ["C02_sml_accept_wf", "C02_sml_reject", "C02_sml_history", "C02_sml_example"]
+THEOREMS_4 = ["C02_sml_accept_wf", "C02_sml_reject", "C02_sml_history", "C02_sml_example",
+              "C02_sml_step", "C02_sml_ops_history", "C02_sml_ops_example"]
 
 
 def enc_exc(e):
